@@ -17,6 +17,62 @@ theorem slot_delSlot (st : Store) (a : Addr) (k : Key) (a' : Addr) (k' : Key) :
   simp only [Store.slot, Store.delSlot, alookup_aerase, Prod.mk.injEq]
   by_cases h : a' = a ∧ k' = k <;> simp [h]
 
+theorem alookup_filter_addr (a a' : Addr) (k' : Key) : ∀ (l : List ((Addr × Key) × Val)),
+    alookup (a', k') (l.filter fun x => x.1.1 != a) = if a' = a then none else alookup (a', k') l := by
+  intro l
+  induction l with
+  | nil => by_cases h : a' = a <;> simp [alookup, h]
+  | cons hd t ih =>
+    obtain ⟨⟨b, kb⟩, v⟩ := hd
+    by_cases hb : b = a
+    · have hf : ((((b, kb), v) :: t).filter fun x => x.1.1 != a) = t.filter fun x => x.1.1 != a := by
+        simp [List.filter_cons, hb]
+      rw [hf, ih]
+      by_cases h : a' = a
+      · simp [h]
+      · have hne : ¬ (b, kb) = (a', k') := by
+          intro e; simp only [Prod.mk.injEq] at e; exact h (e.1.symm.trans hb)
+        simp [h, alookup, hne]
+    · have hf : ((((b, kb), v) :: t).filter fun x => x.1.1 != a) = ((b, kb), v) :: t.filter fun x => x.1.1 != a := by
+        simp [List.filter_cons, hb]
+      rw [hf]
+      by_cases hk : (b, kb) = (a', k')
+      · have hba : a' = b := by simp only [Prod.mk.injEq] at hk; exact hk.1.symm
+        have h : ¬ a' = a := fun e => hb (hba.symm.trans e)
+        simp [alookup, hk, h]
+      · simp only [alookup, hk, if_false]
+        exact ih
+
+theorem slot_delStorage (st : Store) (a a' : Addr) (k' : Key) :
+    (st.delStorage a).slot a' k' = if a' = a then 0 else st.slot a' k' := by
+  simp only [Store.slot, Store.delStorage, alookup_filter_addr]
+  by_cases h : a' = a <;> simp [h]
+
+/-- storage as dirty values over the records, whatever the object's flags (what `commitState` makes of the records) -/
+def Obj.rawView (st : Store) (o : Obj) (k : Key) : Val :=
+  match alookup k o.dirty with
+  | some v => v
+  | none => st.slot o.addr k
+
+theorem baseStore_slot (st : Store) (o : Obj) (k : Key) : (o.baseStore st).slot o.addr k = o.base st k := by
+  unfold Obj.baseStore Obj.base
+  by_cases hc : o.created = true
+  · simp only [hc, if_true, slot_delStorage]
+  · simp only [hc, if_false]; rfl
+
+theorem baseStore_other (st : Store) (o : Obj) (a' : Addr) (h : a' ≠ o.addr) (k : Key) :
+    (o.baseStore st).slot a' k = st.slot a' k := by
+  unfold Obj.baseStore
+  by_cases hc : o.created = true
+  · simp only [hc, if_true, slot_delStorage, h, if_false]
+  · simp only [hc, if_false]; rfl
+
+theorem rawView_baseStore (st : Store) (o : Obj) (k : Key) : o.rawView (o.baseStore st) k = o.slotView st k := by
+  unfold Obj.rawView Obj.slotView
+  cases alookup k o.dirty with
+  | some v => rfl
+  | none => exact baseStore_slot st o k
+
 /-- the records other than storage slots -/
 def Store.sameMeta (st st2 : Store) : Prop := st2.acct = st.acct ∧ st2.bal = st.bal ∧ st2.code = st.code
 
@@ -115,7 +171,7 @@ theorem commit_fold (a : Addr) : ∀ (d : List (Key × Val)) (st : Store) (org :
 theorem commitState_spec (st : Store) (o : Obj) (hnd : (akeys o.dirty).Nodup) (hdho : o.dirtyHasOrigin = true)
     (hcoh : ∀ k ov, alookup k o.origin = some ov → ov = st.slot o.addr k) :
     st.sameMeta (o.commitState st) ∧
-    ∀ a' k', (o.commitState st).slot a' k' = if a' = o.addr then o.slotView st k' else st.slot a' k' := by
+    ∀ a' k', (o.commitState st).slot a' k' = if a' = o.addr then o.rawView st k' else st.slot a' k' := by
   have h := commit_fold o.addr o.dirty st o.origin hnd
     (by
       intro k v hk
@@ -160,6 +216,12 @@ theorem commitSlot_other (a : Addr) (acc : Store × List (Key × Val)) (kv : Key
       · rw [commitSlot_diff a st org k v ov hov hv hvo]
         exact ⟨⟨rfl, rfl, rfl⟩, fun a' ha k' => by rw [slot_setSlot]; simp [ha]⟩
 
+theorem baseStore_meta (st : Store) (o : Obj) : st.sameMeta (o.baseStore st) := by
+  unfold Obj.baseStore
+  by_cases hc : o.created = true
+  · simp only [hc, if_true]; exact ⟨rfl, rfl, rfl⟩
+  · simp only [hc, if_false]; exact ⟨rfl, rfl, rfl⟩
+
 theorem commitState_other (st : Store) (o : Obj) :
     st.sameMeta (o.commitState st) ∧ ∀ a', a' ≠ o.addr → ∀ k', (o.commitState st).slot a' k' = st.slot a' k' := by
   unfold Obj.commitState
@@ -197,15 +259,15 @@ theorem balOf_removeAccount (st : Store) (a b : Addr) :
 def finDel (ds : List Addr) (ao : Addr × Obj) : Bool := ao.2.suicided || (decide (ao.1 ∈ ds) && ao.2.empty)
 
 theorem finaliseObj_del (c : Cfg) (ds : List Addr) (st : Store) (ao : Addr × Obj) (h : finDel ds ao = true) :
-    finaliseObj c true ds st ao = st.removeAccount ao.2.addr := by
+    finaliseObj c true ds st ao = (st.removeAccount ao.2.addr).delStorage ao.2.addr := by
   simp only [finDel] at h
   simp [finaliseObj, h]
 
 theorem finaliseObj_commit (c : Cfg) (ds : List Addr) (st : Store) (ao : Addr × Obj) (h : finDel ds ao = false)
     (hd : ao.1 ∈ ds) :
     finaliseObj c true ds st ao =
-      (if ao.2.code ≠ 0 && ao.2.dirtyCode then (ao.2.commitState st).setCode c ao.2.codeHash ao.2.code
-       else ao.2.commitState st).setAccount ao.2 := by
+      (if ao.2.code ≠ 0 && ao.2.dirtyCode then (ao.2.commitState (ao.2.baseStore st)).setCode c ao.2.codeHash ao.2.code
+       else ao.2.commitState (ao.2.baseStore st)).setAccount ao.2 := by
   simp only [finDel, Bool.or_eq_false_iff, Bool.and_eq_false_iff, decide_eq_false_iff_not] at h
   have h2 : ao.2.empty = false := by
     rcases h.2 with h2 | h2
@@ -234,70 +296,91 @@ theorem finaliseObj_other (c : Cfg) (ds : List Addr) (st : Store) (ao : Addr × 
   cases hdel : finDel ds ao with
   | true =>
     rw [finaliseObj_del c ds st ao hdel]
-    exact ⟨by simp [Store.removeAccount, alookup_aerase, hb], by rw [balOf_removeAccount]; simp [hb], fun _ => rfl⟩
+    refine ⟨by simp [Store.delStorage, Store.removeAccount, alookup_aerase, hb], ?_, ?_⟩
+    · have : ((st.removeAccount ao.2.addr).delStorage ao.2.addr).balOf b = (st.removeAccount ao.2.addr).balOf b := rfl
+      rw [this, balOf_removeAccount]; simp [hb]
+    · intro k
+      rw [slot_delStorage]; simp only [hb, if_false]; rfl
   | false =>
     by_cases hd : ao.1 ∈ ds
     · rw [finaliseObj_commit c ds st ao hdel hd]
-      have hco := commitState_other st ao.2
-      have hslot : ∀ (x : Store), x.stor = (ao.2.commitState st).stor → ∀ k, (x.setAccount ao.2).slot b k = st.slot b k := by
+      have hco := commitState_other (ao.2.baseStore st) ao.2
+      have hbm := baseStore_meta st ao.2
+      have hslot : ∀ (x : Store), x.stor = (ao.2.commitState (ao.2.baseStore st)).stor → ∀ k, (x.setAccount ao.2).slot b k = st.slot b k := by
         intro x hx k
-        have : (x.setAccount ao.2).slot b k = (ao.2.commitState st).slot b k := by
+        have : (x.setAccount ao.2).slot b k = (ao.2.commitState (ao.2.baseStore st)).slot b k := by
           simp [Store.slot, Store.setAccount, hx]
-        rw [this, hco.2 b hb k]
+        rw [this, hco.2 b hb k, baseStore_other st ao.2 b hb k]
       by_cases hcd : (ao.2.code ≠ 0 && ao.2.dirtyCode) = true
       · simp only [hcd, if_true]
-        have hr := setCode_recs c (ao.2.commitState st) ao.2.codeHash ao.2.code
+        have hr := setCode_recs c (ao.2.commitState (ao.2.baseStore st)) ao.2.codeHash ao.2.code
         refine ⟨?_, ?_, hslot _ hr.2.2⟩
-        · simp only [Store.setAccount, alookup_upsert, hb, if_false, hr.1, hco.1.1]
-        · rw [balOf_setAccount]; simp only [hb, if_false]; simp [Store.balOf, hr.2.1, hco.1.2.1]
+        · simp only [Store.setAccount, alookup_upsert, hb, if_false, hr.1, hco.1.1, hbm.1]
+        · rw [balOf_setAccount]; simp only [hb, if_false]; simp [Store.balOf, hr.2.1, hco.1.2.1, hbm.2.1]
       · simp only [hcd, Bool.false_eq_true, if_false]
         refine ⟨?_, ?_, hslot _ rfl⟩
-        · simp only [Store.setAccount, alookup_upsert, hb, if_false, hco.1.1]
-        · rw [balOf_setAccount]; simp only [hb, if_false]; simp [Store.balOf, hco.1.2.1]
+        · simp only [Store.setAccount, alookup_upsert, hb, if_false, hco.1.1, hbm.1]
+        · rw [balOf_setAccount]; simp only [hb, if_false]; simp [Store.balOf, hco.1.2.1, hbm.2.1]
     · rw [finaliseObj_skip c ds st ao hdel hd]
       exact RecEq.refl st b
 
 /-- the records of the object's own address -/
 theorem finaliseObj_own (c : Cfg) (ds : List Addr) (st : Store) (ao : Addr × Obj)
     (hnd : (akeys ao.2.dirty).Nodup) (hdho : ao.2.dirtyHasOrigin = true)
-    (hcoh : ∀ k ov, alookup k ao.2.origin = some ov → ov = st.slot ao.2.addr k) :
+    (hcoh : ∀ k ov, alookup k ao.2.origin = some ov → ov = ao.2.base st k) :
     let st2 := finaliseObj c true ds st ao
     (finDel ds ao = true → alookup ao.2.addr st2.acct = none ∧ st2.balOf ao.2.addr = 0 ∧
-        ∀ k, st2.slot ao.2.addr k = st.slot ao.2.addr k) ∧
+        ∀ k, st2.slot ao.2.addr k = 0) ∧
     (finDel ds ao = false → ao.1 ∈ ds → alookup ao.2.addr st2.acct = some (ao.2.nonce, ao.2.codeHash) ∧
         st2.balOf ao.2.addr = ao.2.bal ∧ ∀ k, st2.slot ao.2.addr k = ao.2.slotView st k) ∧
     (finDel ds ao = false → ao.1 ∉ ds → st2 = st) := by
   refine ⟨?_, ?_, ?_⟩
   · intro hdel
     rw [finaliseObj_del c ds st ao hdel]
-    exact ⟨by simp [Store.removeAccount], by rw [balOf_removeAccount]; simp, fun _ => rfl⟩
+    refine ⟨by simp [Store.delStorage, Store.removeAccount], ?_, fun k => by rw [slot_delStorage]; simp⟩
+    have : ((st.removeAccount ao.2.addr).delStorage ao.2.addr).balOf ao.2.addr = (st.removeAccount ao.2.addr).balOf ao.2.addr := rfl
+    rw [this, balOf_removeAccount]; simp
   · intro hdel hd
     rw [finaliseObj_commit c ds st ao hdel hd]
-    have hcs := commitState_spec st ao.2 hnd hdho hcoh
-    have hslot : ∀ (x : Store), x.stor = (ao.2.commitState st).stor → ∀ k, (x.setAccount ao.2).slot ao.2.addr k = ao.2.slotView st k := by
+    have hcs := commitState_spec (ao.2.baseStore st) ao.2 hnd hdho
+      (fun k ov hk => by rw [baseStore_slot]; exact hcoh k ov hk)
+    have hslot : ∀ (x : Store), x.stor = (ao.2.commitState (ao.2.baseStore st)).stor → ∀ k, (x.setAccount ao.2).slot ao.2.addr k = ao.2.slotView st k := by
       intro x hx k
-      have : (x.setAccount ao.2).slot ao.2.addr k = (ao.2.commitState st).slot ao.2.addr k := by
+      have : (x.setAccount ao.2).slot ao.2.addr k = (ao.2.commitState (ao.2.baseStore st)).slot ao.2.addr k := by
         simp [Store.slot, Store.setAccount, hx]
-      rw [this, hcs.2]; simp
+      rw [this, hcs.2]; simp only [if_true]; exact rawView_baseStore st ao.2 k
     by_cases hcd : (ao.2.code ≠ 0 && ao.2.dirtyCode) = true
     · simp only [hcd, if_true]
-      have hr := setCode_recs c (ao.2.commitState st) ao.2.codeHash ao.2.code
+      have hr := setCode_recs c (ao.2.commitState (ao.2.baseStore st)) ao.2.codeHash ao.2.code
       exact ⟨by simp [Store.setAccount], by rw [balOf_setAccount]; simp, hslot _ hr.2.2⟩
     · simp only [hcd, Bool.false_eq_true, if_false]
       exact ⟨by simp [Store.setAccount], by rw [balOf_setAccount]; simp, hslot _ rfl⟩
   · intro hdel hd
     exact finaliseObj_skip c ds st ao hdel hd
 
+/-- `Finalise` does not fail at this object, which is written out with a new code: the code is not the marker -/
+theorem commitFails_false_nt (c : Cfg) (ds : List Addr) (ao : Addr × Obj) (h : commitFails c true ds ao = false)
+    (hdel : finDel ds ao = false) (hd : ao.1 ∈ ds) (h1 : ao.2.code ≠ 0) (h2 : ao.2.dirtyCode = true) :
+    ¬ ao.2.code = c.tomb := by
+  intro e
+  simp only [finDel, Bool.or_eq_false_iff, Bool.and_eq_false_iff, decide_eq_false_iff_not] at hdel
+  have he : ao.2.empty = false := by
+    rcases hdel.2 with h3 | h3
+    · exact absurd hd h3
+    · exact h3
+  rw [e] at h1
+  simp [commitFails, hdel.1, he, hd, h1, h2, e] at h
+
 /-- the code records only grow, by codes stored under themselves -/
 theorem finaliseObj_codes (c : Cfg) (ds : List Addr) (st : Store) (ao : Addr × Obj)
     (hce : ao.2.code ≠ 0 → ao.2.code = ao.2.codeHash)
-    (hnt : ¬ (ao.2.code ≠ 0 ∧ ao.2.dirtyCode = true ∧ ao.2.code = c.tomb)) :
+    (hnf : commitFails c true ds ao = false) :
     let st2 := finaliseObj c true ds st ao
     (∀ h, st.codeAt h = h → st2.codeAt h = h) ∧
     (finDel ds ao = false → ao.1 ∈ ds → ao.2.code ≠ 0 → ao.2.dirtyCode = true → st2.codeAt ao.2.codeHash = ao.2.codeHash) := by
   have hsa : ∀ (x : Store) h, (x.setAccount ao.2).codeAt h = x.codeAt h := fun _ _ => rfl
-  have hcs : ∀ h, (ao.2.commitState st).codeAt h = st.codeAt h := by
-    intro h; simp [Store.codeAt, (commitState_other st ao.2).1.2.2]
+  have hcs : ∀ h, (ao.2.commitState (ao.2.baseStore st)).codeAt h = st.codeAt h := by
+    intro h; simp [Store.codeAt, (commitState_other (ao.2.baseStore st) ao.2).1.2.2, (baseStore_meta st ao.2).2.2]
   cases hdel : finDel ds ao with
   | true =>
     rw [finaliseObj_del c ds st ao hdel]
@@ -308,7 +391,7 @@ theorem finaliseObj_codes (c : Cfg) (ds : List Addr) (st : Store) (ao : Addr × 
       by_cases hcd : (ao.2.code ≠ 0 && ao.2.dirtyCode) = true
       · simp only [hcd, if_true]
         have hcd' : ao.2.code ≠ 0 ∧ ao.2.dirtyCode = true := by simpa using hcd
-        have hnt' : ¬ ao.2.code = c.tomb := fun e => hnt ⟨hcd'.1, hcd'.2, e⟩
+        have hnt' : ¬ ao.2.code = c.tomb := commitFails_false_nt c ds ao hnf hdel hd hcd'.1 hcd'.2
         refine ⟨?_, ?_⟩
         · intro h hh
           rw [hsa, codeAt_setCode _ _ _ _ _ hnt']
@@ -327,30 +410,34 @@ theorem finaliseObj_codes (c : Cfg) (ds : List Addr) (st : Store) (ao : Addr × 
 
 /-! ### the whole loop -/
 
-structure FinHyp (c : Cfg) (st : Store) (o : Obj) : Prop where
-  nd : (akeys o.dirty).Nodup
-  dho : o.dirtyHasOrigin = true
-  coh : ∀ k ov, alookup k o.origin = some ov → ov = st.slot o.addr k
-  ce : o.code ≠ 0 → o.code = o.codeHash
-  nt : ¬ (o.code ≠ 0 ∧ o.dirtyCode = true ∧ o.code = c.tomb)
+structure FinHyp (c : Cfg) (ds : List Addr) (st : Store) (ao : Addr × Obj) : Prop where
+  nd : (akeys ao.2.dirty).Nodup
+  dho : ao.2.dirtyHasOrigin = true
+  coh : ∀ k ov, alookup k ao.2.origin = some ov → ov = ao.2.base st k
+  ce : ao.2.code ≠ 0 → ao.2.code = ao.2.codeHash
+  nf : commitFails c true ds ao = false
 
-theorem FinHyp.transfer {c : Cfg} {st st2 : Store} {o : Obj} (h : FinHyp c st o)
-    (hs : ∀ k, st2.slot o.addr k = st.slot o.addr k) : FinHyp c st2 o :=
-  ⟨h.nd, h.dho, fun k ov hk => by rw [hs k]; exact h.coh k ov hk, h.ce, h.nt⟩
+theorem base_congr {st st2 : Store} {o : Obj} (hs : ∀ k, st2.slot o.addr k = st.slot o.addr k) (k : Key) :
+    o.base st2 k = o.base st k := by
+  simp only [Obj.base, hs k]
+
+theorem FinHyp.transfer {c : Cfg} {ds : List Addr} {st st2 : Store} {ao : Addr × Obj} (h : FinHyp c ds st ao)
+    (hs : ∀ k, st2.slot ao.2.addr k = st.slot ao.2.addr k) : FinHyp c ds st2 ao :=
+  ⟨h.nd, h.dho, fun k ov hk => by rw [base_congr hs k]; exact h.coh k ov hk, h.ce, h.nf⟩
 
 theorem slotView_congr {st st2 : Store} {o : Obj} (hs : ∀ k, st2.slot o.addr k = st.slot o.addr k) (k : Key) :
     o.slotView st2 k = o.slotView st k := by
-  simp only [Obj.slotView, hs k]
+  simp only [Obj.slotView, base_congr hs k]
 
 structure Own (ds : List Addr) (st st' : Store) (ao : Addr × Obj) : Prop where
   del : finDel ds ao = true → alookup ao.2.addr st'.acct = none ∧ st'.balOf ao.2.addr = 0 ∧
-      ∀ k, st'.slot ao.2.addr k = st.slot ao.2.addr k
+      ∀ k, st'.slot ao.2.addr k = 0
   commit : finDel ds ao = false → ao.1 ∈ ds → alookup ao.2.addr st'.acct = some (ao.2.nonce, ao.2.codeHash) ∧
       st'.balOf ao.2.addr = ao.2.bal ∧ ∀ k, st'.slot ao.2.addr k = ao.2.slotView st k
   skip : finDel ds ao = false → ao.1 ∉ ds → RecEq st st' ao.2.addr
 
 theorem fold_finalise (c : Cfg) (ds : List Addr) : ∀ (objs : List (Addr × Obj)) (st : Store),
-    (objs.map (·.2.addr)).Nodup → (∀ ao ∈ objs, FinHyp c st ao.2) →
+    (objs.map (·.2.addr)).Nodup → (∀ ao ∈ objs, FinHyp c ds st ao) →
     (∀ b, b ∉ objs.map (·.2.addr) → RecEq st (objs.foldl (finaliseObj c true ds) st) b) ∧
     (∀ ao ∈ objs, Own ds st (objs.foldl (finaliseObj c true ds) st) ao) ∧
     (∀ h, st.codeAt h = h → (objs.foldl (finaliseObj c true ds) st).codeAt h = h) ∧
@@ -369,12 +456,12 @@ theorem fold_finalise (c : Cfg) (ds : List Addr) : ∀ (objs : List (Addr × Obj
     have hother : ∀ ao ∈ t, ao.2.addr ≠ hd.2.addr := by
       intro ao hao e
       exact hnd.1 (e ▸ List.mem_map_of_mem hao)
-    have hfh1 : ∀ ao ∈ t, FinHyp c (finaliseObj c true ds st hd) ao.2 := by
+    have hfh1 : ∀ ao ∈ t, FinHyp c ds (finaliseObj c true ds st hd) ao := by
       intro ao hao
       exact (hfh ao (List.mem_cons_of_mem _ hao)).transfer (finaliseObj_other c ds st hd ao.2.addr (hother ao hao)).slot
     have hih := ih (finaliseObj c true ds st hd) hnd.2 hfh1
     have hown := finaliseObj_own c ds st hd hhd.nd hhd.dho hhd.coh
-    have hcodes := finaliseObj_codes c ds st hd hhd.ce hhd.nt
+    have hcodes := finaliseObj_codes c ds st hd hhd.ce hhd.nf
     refine ⟨?_, ?_, ?_, ?_⟩
     · intro b hb
       simp only [List.map_cons, List.mem_cons, not_or] at hb
@@ -398,8 +485,7 @@ theorem fold_finalise (c : Cfg) (ds : List Addr) : ∀ (objs : List (Addr × Obj
         have := hih.2.1 ao hao
         refine ⟨?_, ?_, ?_⟩
         · intro hdel
-          have h1 := this.del hdel
-          exact ⟨h1.1, h1.2.1, fun k => (h1.2.2 k).trans (hoth.slot k)⟩
+          exact this.del hdel
         · intro hdel hd
           have h1 := this.commit hdel hd
           exact ⟨h1.1, h1.2.1, fun k => (h1.2.2 k).trans (slotView_congr hoth.slot k)⟩
@@ -459,14 +545,14 @@ theorem akeys_filter_nodup {K V : Type} (p : K × V → Bool) (l : List (K × V)
   exact h.sublist this
 
 /-- the account the reference keeps for `a` after `Finalise(true)` -/
-theorem ref_finalise_get (r : Ref) (hnd : (akeys r.cur.accts).Nodup) (hst : r.sticky = []) (a : Addr) :
+theorem ref_finalise_get (r : Ref) (hnd : (akeys r.cur.accts).Nodup) (a : Addr) :
     (r.finalise true).cur.get a =
-      ((r.cur.get a).filter (fun x => !(decide (a ∈ r.cur.touched) && (x.suicided || x.empty)))).map
+      ((r.cur.get a).filter (fun x => !(decide (a ∈ r.cur.touched ++ r.sticky) && (x.suicided || x.empty)))).map
         (fun x => { x with cstor := x.stor }) := by
   have h1 := alookup_mapVal (K := Addr) (fun ar : Addr × RAcct => ({ ar.2 with cstor := ar.2.stor } : RAcct))
-    (r.cur.accts.filter (rfinaliseAcct true r.cur.touched)) a
-  rw [alookup_filter (rfinaliseAcct true r.cur.touched) r.cur.accts hnd a] at h1
-  simp only [Ref.finalise, RWorld.get, hst, List.append_nil]
+    (r.cur.accts.filter (rfinaliseAcct true (r.cur.touched ++ r.sticky))) a
+  rw [alookup_filter (rfinaliseAcct true (r.cur.touched ++ r.sticky)) r.cur.accts hnd a] at h1
+  simp only [Ref.finalise, RWorld.get]
   refine h1.trans ?_
   simp [rfinaliseAcct]
 
@@ -504,6 +590,7 @@ theorem view_of_recs (st st' : Store) (hs : StoreOK st) (a : Addr) (hr : RecEq s
     have hok := getAccount_ok st hs a o hg
     simp only [Option.map_some, Option.some.injEq]
     simp only [viewObj, AView.mk.injEq, true_and, and_true]
+    have hbase : ∀ k, o.base st' k = o.base st k := fun k => base_congr (by intro k'; rw [hf.1]; exact hr.slot k') k
     refine ⟨?_, ?_, ?_⟩
     · have h1 : o.getCode st = o.codeHash := hok.code
       simp only [Obj.getCode, hf.2.2.2.1, ne_eq, not_true_eq_false, if_false] at h1 ⊢
@@ -511,8 +598,8 @@ theorem view_of_recs (st st' : Store) (hs : StoreOK st) (a : Addr) (hr : RecEq s
       · simp [hz]
       · simp only [hz, if_false] at h1 ⊢
         rw [h1]; exact hcode _ h1
-    · funext k; simp only [Obj.slotView, hf.2.2.1, alookup, hf.1]; exact hr.slot k
-    · funext k; rw [hf.1]; exact hr.slot k
+    · funext k; simp only [Obj.slotView, hf.2.2.1, alookup]; exact hbase k
+    · funext k; exact hbase k
 
 theorem dho_bool {o : Obj} (h : DirtyHasOrigin o) : o.dirtyHasOrigin = true := by
   simp only [Obj.dirtyHasOrigin, List.all_eq_true]
@@ -534,27 +621,11 @@ theorem find_none_all {α : Type} (p : α → Bool) : ∀ (l : List α), (∀ x 
     exact find_none_all p t (fun y hy => h y (List.mem_cons_of_mem _ hy))
 
 theorem sim_finalise {s : Impl} {r : Ref} (c : Cfg) (h : Sim s r) (hg : s.finaliseGuard c = true) :
-    (s.finalise c true).2 = false ∧ Sim (s.finalise c true).1 (r.finalise true) := by
-  -- the guard, unpacked
-  simp only [Impl.finaliseGuard, Bool.and_eq_true, List.all_eq_true] at hg
-  have hobjs := hg
-  have hguard : ∀ ao ∈ s.objs,
-      ¬ (ao.2.code ≠ 0 ∧ ao.2.dirtyCode = true ∧ ao.2.code = c.tomb) ∧
-      (finDel s.dirtySet ao = true → s.store.storClean ao.1 = true) := by
-    intro ao hao
-    have := hobjs ao hao
-    simp only [Bool.and_eq_true, Bool.not_eq_true', Bool.or_eq_true] at this
-    refine ⟨?_, ?_⟩
-    · intro hc
-      have h2 := this.1
-      have h3 : (ao.2.code != 0 && ao.2.dirtyCode && ao.2.code == c.tomb) = true := by
-        rw [Bool.and_eq_true, Bool.and_eq_true]
-        exact ⟨⟨by simpa using hc.1, hc.2.1⟩, by simpa using hc.2.2⟩
-      rw [h3] at h2; cases h2
-    · intro hdel
-      rcases this.2 with h2 | h2
-      · simp only [finDel] at hdel; rw [hdel] at h2; cases h2
-      · exact h2
+    (s.finalise c true).2 = false ∧ Sim (s.finalise c true).1 (r.finalise true) ∧
+    (NoOrphanStorage s.store → NoOrphanStorage (s.finalise c true).1.store) := by
+  -- the guard, unpacked: `Finalise` fails at no object
+  simp only [Impl.finaliseGuard, List.all_eq_true, Bool.not_eq_true'] at hg
+  have hnofail : ∀ ao ∈ s.objs, commitFails c true s.dirtySet ao = false := hg
   -- cached pairs
   have hmem : ∀ ao ∈ s.objs, alookup ao.1 s.objs = some ao.2 := fun ao hao =>
     mem_alookup_of_nodup s.objs h.cinv.nodup ao.1 ao.2 hao
@@ -562,10 +633,10 @@ theorem sim_finalise {s : Impl} {r : Ref} (c : Cfg) (h : Sim s r) (hg : s.finali
   have hkeys : s.objs.map (·.2.addr) = akeys s.objs := by
     simp only [akeys]
     exact List.map_congr_left fun ao hao => haddr ao hao
-  have hfh : ∀ ao ∈ s.objs, FinHyp c s.store ao.2 := by
+  have hfh : ∀ ao ∈ s.objs, FinHyp c s.dirtySet s.store ao := by
     intro ao hao
     have hok := (h.cinv.objs ao.1 ao.2 (hmem ao hao)).2
-    exact ⟨hok.nd, dho_bool hok.dho, hok.origin, hok.codeEq, (hguard ao hao).1⟩
+    exact ⟨hok.nd, dho_bool hok.dho, hok.origin, hok.codeEq, hnofail ao hao⟩
   have hfold := fold_finalise c s.dirtySet s.objs s.store (by rw [hkeys]; exact h.cinv.nodup) hfh
   generalize hst' : s.objs.foldl (finaliseObj c true s.dirtySet) s.store = st' at hfold
   obtain ⟨hF1, hF2, hF3, hF4⟩ := hfold
@@ -598,7 +669,7 @@ theorem sim_finalise {s : Impl} {r : Ref} (c : Cfg) (h : Sim s r) (hg : s.finali
   -- the view of every address after the loop
   have hV : ∀ a, st'.view a = (r.finalise true).cur.view a := by
     intro a
-    simp only [RWorld.view, ref_finalise_get r h.nodup h.sticky a]
+    simp only [RWorld.view, ref_finalise_get r h.nodup a]
     have hva : s.view a = (r.cur.get a).map viewR := view_eq_get h.abs a
     cases hl : alookup a s.objs with
     | none =>
@@ -700,9 +771,10 @@ theorem sim_finalise {s : Impl} {r : Ref} (c : Cfg) (h : Sim s r) (hg : s.finali
               · simp only [hz, if_true]; rw [← hvf.2.2.1, hz]
               · simp only [hz, if_false]; rw [hcode hz]; exact hvf.2.2.1
             · funext k
-              simp only [Obj.slotView, alookup]
+              simp only [Obj.slotView, alookup, Obj.base, Bool.false_eq_true, if_false]
               rw [hcmt.2.2 k]; exact hvf.2.2.2.2.2.1 k
             · funext k
+              simp only [Obj.base, Bool.false_eq_true, if_false]
               show st'.slot a k = x.slot k
               rw [hcmt.2.2 k]; exact hvf.2.2.2.2.2.1 k
           · -- untouched cache entry: nothing written, and the reference keeps the account as it is
@@ -728,25 +800,28 @@ theorem sim_finalise {s : Impl} {r : Ref} (c : Cfg) (h : Sim s r) (hg : s.finali
   -- every account the reference keeps is non-empty
   have hkeptNonEmpty : ∀ a x', (r.finalise true).cur.get a = some x' → x'.empty = false := by
     intro a x' hx'
-    rw [ref_finalise_get r h.nodup h.sticky a] at hx'
+    rw [ref_finalise_get r h.nodup a] at hx'
     cases hx : r.cur.get a with
     | none => rw [hx] at hx'; simp at hx'
     | some x =>
       rw [hx] at hx'
       simp only [Option.filter] at hx'
-      by_cases ht : a ∈ r.cur.touched
-      · by_cases hse : (x.suicided || x.empty) = true
-        · simp [ht, hse] at hx'
-        · simp only [ht, decide_true, Bool.true_and, hse, Bool.not_false, if_true, Option.map_some, Option.some.injEq] at hx'
-          subst hx'
-          simp only [Bool.or_eq_true, not_or, Bool.not_eq_true] at hse
-          simpa [RAcct.empty] using hse.2
-      · have hu := huntouched a x hx ht
-        simp only [ht, decide_false, Bool.false_and, Bool.not_false, if_true, Option.map_some, Option.some.injEq] at hx'
+      -- the account is kept: it is not deletable, or it is as the records have it
+      have hxe : x.empty = false := by
+        by_cases ht : a ∈ r.cur.touched
+        · by_cases hse : (x.suicided || x.empty) = true
+          · have : a ∈ r.cur.touched ++ r.sticky := List.mem_append_left _ ht
+            simp [this, hse] at hx'
+          · simp only [Bool.or_eq_true, not_or, Bool.not_eq_true] at hse; exact hse.2
+        · exact (huntouched a x hx ht).2.2.1
+      by_cases hk : (!(decide (a ∈ r.cur.touched ++ r.sticky) && (x.suicided || x.empty))) = true
+      · rw [if_pos hk] at hx'
+        simp only [Option.map_some, Option.some.injEq] at hx'
         subst hx'
-        simpa [RAcct.empty] using hu.2.2.1
+        simpa [RAcct.empty] using hxe
+      · rw [if_neg hk] at hx'; cases hx'
   have hsok' : StoreOK st' := by
-    refine ⟨?_, ?_, ?_⟩
+    refine ⟨?_, ?_⟩
     · intro a o' hga
       have hv := hV a
       simp only [Store.view, hga, Option.map_some, RWorld.view] at hv
@@ -756,35 +831,6 @@ theorem sim_finalise {s : Impl} {r : Ref} (c : Cfg) (h : Sim s r) (hg : s.finali
         rw [hx'] at hv
         simp only [Option.map_some, Option.some.injEq] at hv
         rw [empty_eq hv]; exact hkeptNonEmpty a x' hx'
-    · intro a hga k
-      cases hl : alookup a s.objs with
-      | none =>
-        have hnm : a ∉ s.objs.map (·.2.addr) := by
-          rw [hkeys]; intro hm
-          have := (mem_akeys_iff_alookup s.objs a).mp hm
-          rw [hl] at this; cases this
-        have hr := hF1 a hnm
-        rw [getAccount_congr s.store st' a hr.acct hr.bal] at hga
-        rw [hr.slot k]; exact hsok.absentClean a hga k
-      | some o =>
-        have hcm : (a, o) ∈ s.objs := alookup_mem _ _ _ hl
-        have hoa : o.addr = a := haddr (a, o) hcm
-        have hown := hF2 (a, o) hcm
-        cases hdel : finDel s.dirtySet (a, o) with
-        | true =>
-          have hd := hown.del hdel
-          simp only [hoa] at hd
-          rw [hd.2.2 k]
-          exact storClean_slot s.store a ((hguard (a, o) hcm).2 hdel) k
-        | false =>
-          by_cases hd : a ∈ s.dirtySet
-          · have hcmt := hown.commit hdel hd
-            simp only [hoa] at hcmt
-            simp [Store.getAccount, hcmt.1] at hga
-          · have hsk := hown.skip hdel hd
-            simp only [hoa] at hsk
-            rw [getAccount_congr s.store st' a hsk.acct hsk.bal] at hga
-            rw [hsk.slot k]; exact hsok.absentClean a hga k
     · intro a n hh hac hz
       cases hl : alookup a s.objs with
       | none =>
@@ -816,31 +862,49 @@ theorem sim_finalise {s : Impl} {r : Ref} (c : Cfg) (h : Sim s r) (hg : s.finali
             simp only [hoa] at hsk
             rw [hsk.acct] at hac
             exact hF3 _ (hsok.codes a n hh hac hz)
+  -- the storage records of a deleted account are deleted with it
+  have hclean : NoOrphanStorage s.store → NoOrphanStorage st' := by
+    intro hcl a hga k
+    cases hl : alookup a s.objs with
+    | none =>
+      have hnm : a ∉ s.objs.map (·.2.addr) := by
+        rw [hkeys]; intro hm
+        have := (mem_akeys_iff_alookup s.objs a).mp hm
+        rw [hl] at this; cases this
+      have hr := hF1 a hnm
+      rw [getAccount_congr s.store st' a hr.acct hr.bal] at hga
+      rw [hr.slot k]; exact hcl a hga k
+    | some o =>
+      have hcm : (a, o) ∈ s.objs := alookup_mem _ _ _ hl
+      have hoa : o.addr = a := haddr (a, o) hcm
+      have hown := hF2 (a, o) hcm
+      cases hdel : finDel s.dirtySet (a, o) with
+      | true =>
+        have hd := hown.del hdel
+        simp only [hoa] at hd
+        exact hd.2.2 k
+      | false =>
+        by_cases hd : a ∈ s.dirtySet
+        · have hcmt := hown.commit hdel hd
+          simp only [hoa] at hcmt
+          simp [Store.getAccount, hcmt.1] at hga
+        · have hsk := hown.skip hdel hd
+          simp only [hoa] at hsk
+          rw [getAccount_congr s.store st' a hsk.acct hsk.bal] at hga
+          rw [hsk.slot k]; exact hcl a hga k
   -- assemble
   have hf := abs_fields h
-  have hnofail : ∀ ao ∈ s.objs, commitFails c true s.dirtySet ao = false := by
-    intro ao hao
-    have hnt := (hguard ao hao).1
-    simp only [commitFails, Bool.and_eq_false_iff]
-    right
-    by_cases h1 : ao.2.code = 0
-    · left; left; simp [h1]
-    · by_cases h2 : ao.2.dirtyCode = true
-      · right
-        have : ¬ ao.2.code = c.tomb := fun e => hnt ⟨h1, h2, e⟩
-        simpa using this
-      · left; right; simpa using h2
   have hfin : s.finalise c true = ({ s with store := st', objs := [], journal := Journal.new, refund := 0, revisions := [] }, false) := by
     simp only [Impl.finalise]
     have hds : (s.journal.dirties.map (·.1)).filter (fun a => (alookup a s.objs).isSome) = s.dirtySet := rfl
     rw [hds, find_none_all _ _ hnofail, takeWhile_all _ _ (fun ao hao => by simp [hnofail ao hao]), hst']
   rw [hfin]
-  refine ⟨rfl, ?_⟩
+  refine ⟨rfl, ?_, hclean⟩
   show Sim ({ s with store := st', objs := [], journal := Journal.new, refund := 0, revisions := [] } : Impl) (r.finalise true)
   have hview' : ∀ a, ({ s with store := st', objs := [], journal := Journal.new, refund := 0, revisions := [] } : Impl).view a = st'.view a := by
     intro a; simp [Impl.view, alookup]
   refine ⟨⟨by intro a o ha; simp [alookup] at ha, by simp [akeys], hsok'⟩, by intro e he; simp [Journal.new] at he, ?_, h.thash, h.nextRev,
-    ?_, ?_, ?_, ?_, by intro x hx; simp at hx, by simp, by simp, by simp [Ref.finalise], by simp [Journal.new, JOK], JCnt.new, by simp [Journal.new, OOK]⟩
+    ?_, ?_, ?_, ?_, by intro x hx; simp at hx, by simp, by simp, by simp [Journal.new, JOK], JCnt.new, by simp [Journal.new, OOK]⟩
   · simp only [absI, absR, AW.mk.injEq]
     refine ⟨?_, by simp [Ref.finalise], ?_, ?_, ?_, ?_⟩
     · funext a; rw [hview' a]; exact hV a
